@@ -12,9 +12,9 @@ for sid in ids:
     if not want:
         print(sid, 'no check is expected to report it (documented as undetected)')
         continue
-    assert subprocess.run(['git', '-C', '/repo', 'diff', '--quiet']).returncode == 0, '/repo dirty'
+    assert subprocess.run(['git', '-C', os.environ.get('SM9_REPO', '/repo'), 'diff', '--quiet']).returncode == 0, '/repo dirty'
     try:
-        subprocess.run(['git', '-C', '/repo', 'apply', d + '/patch.diff'], check=True)
+        subprocess.run(['git', '-C', os.environ.get('SM9_REPO', '/repo'), 'apply', d + '/patch.diff'], check=True)
         for c in want[:2]:
             p = subprocess.run(['./check', c, '--tier', 'quick'], cwd=V, stdout=subprocess.PIPE, stderr=subprocess.STDOUT, text=True)
             ok = p.returncode == 1 and 'VIOLATION property=' + c in p.stdout
@@ -22,5 +22,5 @@ for sid in ids:
             if not ok:
                 bad += 1
     finally:
-        subprocess.run(['git', '-C', '/repo', 'checkout', '--', '.'])
+        subprocess.run(['git', '-C', os.environ.get('SM9_REPO', '/repo'), 'checkout', '--', '.'])
 print('regression sweep finished,', bad, 'no longer reported')
